@@ -329,6 +329,9 @@ func (bc *BoundsAnalyzer) feasibleAlternatives(
 		if err != nil {
 			return nil, nil, err
 		}
+		if len(relTypeArgs) != len(args) {
+			return nil, nil, fmt.Errorf("pred %v on args %v: relation type %v has %d arguments, want %d", pred, args, alternative, len(relTypeArgs), len(args))
+		}
 		for i, arg := range args {
 			v, isVar := arg.(ast.Variable)
 			if !isVar {
